@@ -192,6 +192,10 @@ def main(tier, seed):
                            "is lane-independent and chunk-compositional — tied only by the alone-vs-together differential below",
                            "harness/k1_algo.c + imbh.c (job filling, batching), this Python driver"])
     k1 = common.build_harness("k1_algo", extra_src=["imbh.c"])
+    miss, vtab = common.missing_variants(k1)
+    if miss:
+        res.violation(dict(property=PID, what="implementation variants missing from the rebuilt library (init / power-up self test fails)",
+                           missing=miss, table=vtab), name="missing_variants")
     rng = Rng(seed)
     T = templates(C)
     per = 6 if tier == "quick" else 24
